@@ -318,6 +318,9 @@ struct PeerRt<I: HInp, P: InputPredictor<I> + 'static> {
     synced_all: bool,
     /// harness-side knowledge: inputs were submitted and the frame they are for has not been consumed yet
     inputs_pending: bool,
+    /// frame whose local inputs were already registered by a stalled call, and how many stalled calls so far
+    resub_frame: i32,
+    resub_n: u32,
 }
 
 struct SpecRt<I: HInp, P: InputPredictor<I> + 'static> {
@@ -660,6 +663,8 @@ pub fn run_typed<I: HInp, P: InputPredictor<I> + 'static>(sc: &Scenario, opts: &
             neighbours: crate::gen::neighbours(sc, peer_addr(p)),
             synced_all: false,
             inputs_pending: false,
+            resub_frame: -1,
+            resub_n: 0,
         });
     }
     let mut specs: Vec<SpecRt<I, P>> = Vec::new();
@@ -980,8 +985,11 @@ fn tick_peer<I: HInp, P: InputPredictor<I> + 'static>(
     let Some(s) = pe.sess.as_mut() else { return };
     let before = s.current_frame();
     let mut submitted: Vec<(usize, u32)> = Vec::new();
+    let attempt = if sc.resubmit_varies && pe.resub_frame == before { pe.resub_n } else { 0 };
     for &h in &pe.out.handles {
-        let v = true_input(sc.seed, h, before, vals);
+        // the first registered submission of a frame is its true input; later submissions for a frame that is
+        // still stalled carry other values and must be ignored by the session
+        let v = if attempt == 0 { true_input(sc.seed, h, before, vals) } else { true_input(sc.seed ^ (attempt as u64).wrapping_mul(0x9e37_79b9_7f4a_7c15), h, before, vals) };
         match s.add_local_input(h, I::from_v(v)) {
             Ok(()) => {
                 submitted.push((h, v));
@@ -1059,6 +1067,14 @@ fn tick_peer<I: HInp, P: InputPredictor<I> + 'static>(
             let d = cur - before;
             if d == 1 {
                 pe.inputs_pending = false;
+            }
+            if d == 0 {
+                if pe.resub_frame == before {
+                    pe.resub_n += 1;
+                } else {
+                    pe.resub_frame = before;
+                    pe.resub_n = 1;
+                }
             }
             if d != 0 && d != 1 {
                 viols.push(Viol { prop: "C02", clause: "C02.delta".into(), msg: format!("current_frame() moved by {d} in one call"), node: node.clone(), tick });
